@@ -1201,7 +1201,7 @@ def replay(path: str) -> int:
 # batch
 
 def main(tier: str) -> int:
-    total = {'quick': 80.0, 'thorough': 900.0}[tier]
+    total = {'quick': 120.0, 'thorough': 900.0}[tier]
     total = float(os.environ.get('VERIF_BUDGET_S', total))
     parts = [('plain', 'run_plain', 0.4), ('faults', 'run_faults', 0.52), ('captured', 'run_captured', 0.08)]
     setup_ref_dir()
